@@ -107,7 +107,7 @@ def g_text(rng, hostile=0.3):
     to some layer of the runtime (`po.hostile_texts()`: `$`-texts, names of context variables, templates, quotes, newlines,
     blanks, the empty text, very long texts), sometimes with a trigger word behind it."""
     if rng.random() < hostile:
-        t = rng.choice(po.hostile_texts())
+        t = po.pick_hostile(rng)
         if rng.random() < 0.2:
             t += rng.choice([" bad", " evil", " x", "!", " boom"])
         return t
@@ -136,6 +136,7 @@ def g_cfg(rng, small):
         "rail_def": rng.choice(["subflow", "flow"]),
         "dialog": rng.choice(["general", "general", "predef", "llm", "refuse"]),
         "exceptions": rng.random() < 0.2,
+        "text_from": rng.choice(["param", "param", "context"]),
     }
 
 
@@ -213,6 +214,19 @@ def mk_call(rng, opts, cfg=None, no_options=False):
     return c
 
 
+def derive_text(rng, t):
+    r = rng.random()
+    if r < 0.5:
+        return t
+    if r < 0.7:
+        return t + rng.choice([" bad", " evil", " x"])
+    if r < 0.8:
+        return t.upper() if t.upper() != t else t.lower()
+    if r < 0.9:
+        return t + " "
+    return t[: max(1, len(t) // 2)]
+
+
 def gen_seq(rng, tier):
     """2-3 `generate` calls with different option subsets one after the other on ONE LLMRails: on one conversation (carried
     `state`, or the message history) or on separate conversations; each call in a task of its own or all in one task; calls
@@ -276,6 +290,21 @@ def gen_seq(rng, tier):
                         c.pop("form", None)
                         if f != "list":
                             c["form"] = f
+        if rng.random() < 0.3:
+            # texts of later calls DERIVED from those of earlier calls (the same text again, with a trigger word behind it, in
+            # another case, with a blank, cut): whatever is remembered per text / per part of a text is hit a second time
+            calls = case["calls"]
+            for j in range(1, len(calls)):
+                src = calls[rng.randrange(j)]
+                k = rng.choice(["user", "user", "bot"])
+                if k == "user":
+                    calls[j]["user"] = derive_text(rng, src["user"])
+                elif calls[j]["bot"] is not None and src["bot"] is not None:
+                    calls[j]["bot"] = derive_text(rng, src["bot"])
+                o = calls[j]["opts"]
+                if calls[j]["bot"] is None and not calls[j].get("no_options") and o is not None and "output" in o and "dialog" not in o and not input_blocks(cfg, o, calls[j]["user"]):
+                    calls[j]["bot"] = g_text(rng)
+            case["derived"] = True
         if not in_domain(case):
             raise AssertionError("gen_seq left the region of the property: " + json.dumps(case))
         cases.append(case)
@@ -445,7 +474,31 @@ def rails_obs(rails):
              "actions": [{"name": a.action_name, "finished": a.finished_at is not None, "llm": [c.task for c in a.llm_calls]} for a in r.executed_actions]} for r in rails]
 
 
+_CONFIRMS = {"n": 0}
+
+
 def run_impl(case):
+    """One LLMRails per structural configuration serves many cases (building one costs more than a case).  A case that FAILS the
+    documented table is therefore run once more on a freshly built LLMRails: the observation reported is the fresh one, so that
+    a replay (fresh process) sees what the check saw.  If the failure does not come back, it needed what EARLIER cases left
+    behind in that LLMRails / runtime (state that survives across conversations): reported through `compare` (a broken tie, the
+    search then looks for a self-contained sequence - the `seq` cases on separate conversations are such sequences), never
+    silently dropped."""
+    obs = _run_impl(case)
+    if case["kind"] in ("e2e", "seq", "interp") and _CONFIRMS["n"] < 60:
+        d = oracle(case, obs)
+        if d:
+            _CONFIRMS["n"] += 1
+            po._CACHE.clear()
+            ci._CACHE.clear()
+            obs2 = _run_impl(case)
+            if oracle(case, obs2) is None:
+                obs2["_stale_state"] = d
+            return obs2
+    return obs
+
+
+def _run_impl(case):
     if case["kind"] == "interp":
         return ci.run(case)
     if case["kind"] == "log":
@@ -517,6 +570,9 @@ def _rails_key(rails, full):
 
 
 def compare(case, obs, mouts):
+    if obs.get("_stale_state"):
+        return ("fails only after EARLIER cases were run on the same LLMRails (state that survives across conversations), passes on a "
+                "freshly built one: " + obs["_stale_state"])
     if case["kind"] == "interp":
         return ci.compare(case, obs, mouts[0])
     m = mouts[0]
@@ -761,7 +817,8 @@ def signature(case, obs, msg):
     shortened sequence whose FIRST call fails there (because of what ran before it) is not a smaller witness of a failure
     of a LATER call."""
     if case.get("kind") == "interp":
-        return None
+        d = ci.oracle(case, obs)
+        return "reply-text-is-control-script" if d == f"interp: reply '', documented {po.CONTROL_SCRIPT!r}" else None
     s = _known_signature(case, obs, msg)
     if s is None and case.get("kind") == "seq":
         for k, o in enumerate(obs.get("per_call", [])):
@@ -777,6 +834,18 @@ def _known_signature(case, obs, msg):
     `state-loses-earlier-calls`: a conversation driven through `generate(..., state=...)` whose FIRST deviating call is
     the third or a later one, i.e. a call whose carried state was produced by a call that was itself given a state (that
     state holds only the events of that one call).  A deviation in the first or second call never gets this signature."""
+    # `reply-text-is-control-script`: the FIRST deviation is exactly "the documented reply is the in-band control script of the
+    # 1.0 response assembly and the reply came back empty" (any other deviation of such a case keeps no signature)
+    ctl = f"documented reply {po.CONTROL_SCRIPT!r}, got ''"
+    if case.get("kind") == "e2e" and "exc" not in obs and _oracle_e2e(case, obs) == ctl:
+        return "reply-text-is-control-script"
+    if case.get("kind") == "seq":
+        for k, o in enumerate(obs.get("per_call", [])):
+            d = None if "exc" in o else _oracle_e2e(call_case(case, k), o)
+            if d or "exc" in o:
+                if d == ctl:
+                    return "reply-text-is-control-script"
+                break
     if case.get("kind") == "seq" and case.get("via") == "state":
         for k, o in enumerate(obs.get("per_call", [])):
             if _oracle_e2e(call_case(case, k), o) or "exc" in o:
@@ -824,6 +893,11 @@ def tags(case, obs):
             t.append("options-object-reused" if len(set(keys)) < len(keys) else "share-without-repeat")
         if any(c.get("no_options") for c in case["calls"][1:]):
             t.append("call-without-options-after-calls-with")
+        if case.get("derived"):
+            t.append("texts-derived-from-earlier-calls")
+        us = [c["user"] for c in case["calls"]]
+        if len(set(us)) < len(us):
+            t.append("same-user-text-again")
         for c in case["calls"]:
             t += ["seq-" + x for x in po.text_classes(c["user"]) + po.text_classes(c["bot"])]
             if not c.get("no_options"):
@@ -844,7 +918,7 @@ def tags(case, obs):
     sel = "noopt" if case.get("no_options") else ("default" if case["opts"] is None else "+".join(c[0] for c in case["opts"]) or "none")
     if capped(obs):
         return ["kind:e2e", "event-cap-hit"]
-    t = ["kind:e2e", "opts:" + sel, "dialog:" + cfg["dialog"], "def:" + cfg["rail_def"], "n_in:%d" % len(cfg["input"]), "n_out:%d" % len(cfg["output"]), "form:" + case.get("form", "list")]
+    t = ["kind:e2e", "opts:" + sel, "dialog:" + cfg["dialog"], "def:" + cfg["rail_def"], "text-from:" + cfg.get("text_from", "param"), "n_in:%d" % len(cfg["input"]), "n_out:%d" % len(cfg["output"]), "form:" + case.get("form", "list")]
     rails_only = case["opts"] is not None and not case.get("no_options") and "dialog" not in case["opts"]
     t += [("user-" if rails_only else "user-dialog-") + x for x in po.text_classes(case["user"])] + ["bot-" + x for x in po.text_classes(case["bot"])]
     if rails_only and obs.get("response") is not None and obs["response"] not in (po.REFUSAL, po.INTERNAL_ERROR):
